@@ -258,8 +258,23 @@ func EventOf(nonce int64) EventFields {
 		ef.Token, ef.Symbol = common.HexToAddress("0x00000000000000000000000000000000000000dd"), "USDC"
 		ef.Recipient = sdk.AccAddress([]byte("verif-recipient-two!")).String()
 	}
+	switch k := nonce % 100; {
+	case k >= 75: // "eth" with a token address: refused by txs.EthereumEventToEthBridgeClaim
+		ef.Token, ef.Symbol = common.HexToAddress("0x00000000000000000000000000000000000000dd"), "eth"
+	case k >= 50: // a recipient the bridge contract accepts (42 bytes, "sif" prefix) with a wrong bech32 checksum
+		r := []byte(ef.Recipient)
+		if r[len(r)-1] == 'q' {
+			r[len(r)-1] = 'p'
+		} else {
+			r[len(r)-1] = 'q'
+		}
+		ef.Recipient = string(r)
+	}
 	return ef
 }
+
+// Translatable: whether the relayer can turn the event of this nonce into a claim (see EventOf).
+func Translatable(nonce int64) bool { return nonce%100 < 50 }
 
 // ---- fake Tendermint client ---------------------------------------------------------------------------
 
